@@ -230,6 +230,8 @@ def overlay(prog, rep):
     c = calls[0]
     d0 = single_def(lc, norm(c.args[0])) if isinstance(c.args[0], ast.Name) else c.args[0]
     ok0 = d0 is not None and norm(d0) == f"tomlkit.parse({lc.params[1]})"
+    rb_ = local_defs(lc, lc.params[1])
+    rep.check(not rb_, "OVERLAY", lc.short, "default document as given", f"`{lc.params[1]}` is not re-bound", (f"`{norm(rb_[0])[:80]}` rewrites the default document before it is parsed: whatever the rewriting does to the text is also done inside multi-line string values (dedent / strip / replace change them), so keys the user leaves alone no longer carry the default the caller gave" if rb_ else ""), lc.loc(rb_[0]) if rb_ else lc.loc())
     defs1 = local_defs(lc, norm(c.args[1])) if isinstance(c.args[1], ast.Name) else []
     vals1 = sorted(norm(d.value) for d in defs1 if isinstance(d, ast.Assign))
     ok1 = len(vals1) == 2 and any(v in ("dict()", "{}") for v in vals1) and any(v.startswith("tomlkit.parse(") for v in vals1)
